@@ -105,13 +105,13 @@ func singleOK(t *truth) verdict {
 	}
 	// only known EKU names
 	if !t.ekuKnown {
-		v.fail(ruleEKU)
+		v.fail(ruleEKU + "/" + t.ekuWhy)
 	}
 	// a usable external-storage connection string when that backend is selected
 	if t.backend == 1 {
 		switch t.connUsable {
 		case no:
-			v.fail(ruleConn)
+			v.fail(ruleConn + "/" + t.connWhy)
 		case dontcare:
 			v.maybe(ruleConn)
 		}
